@@ -1,14 +1,195 @@
-// Package c14 is the correspondence area of property C14 (stub: the slice is not built yet).
+// Package c14 is the correspondence area of property C14:
+//
+//	parse <hex> => <ok> <svchex> <methodhex>     the real routing.parseRPCName (export shim, tag verif)
+//	hist …                                        claim/keep/release histories over the real ServiceRouter,
+//	                                              probed after every step through RouteGRPC (G), ServiceRouter.RouteHTTP on
+//	                                              requests parsed by net/http (H), GRPCWebBridge.ServeHTTP (W) and
+//	                                              GRPCProxy.StreamHandler (X) — format and execution shared with harness/c06.
 package c14
 
 import (
+	"fmt"
 	"math/rand"
+	"strings"
+
+	"github.com/renbou/grpcbridge/routing"
+	"verif/harness/c06"
+	"verif/harness/common"
 )
 
 type Area struct{}
 
 func (Area) Name() string { return "c14" }
 
-func (Area) Exec(input string) string { return "UNIMPLEMENTED" }
+func (Area) Exec(input string) string {
+	f := strings.Fields(input)
+	switch f[0] {
+	case "parse":
+		svc, m, ok := routing.VerifParseRPCName(string(common.MustUnHex(f[1])))
+		if !ok {
+			return "0 x x"
+		}
+		return fmt.Sprintf("1 %s %s", common.HexS(svc), common.HexS(m))
+	case "hist":
+		return c06.ExecHist(input)
+	}
+	return "BADOP"
+}
 
-func (Area) Gen(r *rand.Rand, tier string, emit func(string)) {}
+var (
+	targets  = []string{"a", "b", "c"}
+	svcPool  = []string{"p.S1", "p.S2", "q.T", "p%2ES1", "", "p.S1 x", "p.S1é"}
+	gNames   = []string{"/p.S1/M1", "p.S1/M1", "/p.S2/a/b", "/q.T/", "//M", "/p%2ES1/M", "/p.S1", "p.S1", "", "/", "/p.S1 x/M", "/nobody.S/M"}
+	hTargets = [][2]string{
+		{"POST", "/p.S1/M1"}, {"GET", "/p.S1/M1"}, {"PUT", "/nobody.S/M"}, {"POST", "/p.S1/M1?x=1/2"}, {"POST", "/p.S1/M%20x"},
+		{"POST", "/p%2ES1/M1"}, {"POST", "/p.S%31/M1"}, {"POST", "/p.S2/a/b"}, {"POST", "/q.T/"}, {"POST", "//M"}, {"POST", "/p.S1"},
+		{"POST", "/"}, {"POST", "/p.S1/M%zz"}, {"POST", "/p.S1\xc3\xa9/M"}, {"POST", "/p.S1%20x/M"}, {"POST", "/nobody.S/M"}, {"POST", "/p.S1/M1?"},
+		{"POST", "/p.S2/M%2Fx"}, {"POST", "/p.S2%2FM"},
+	}
+	wTargets = []string{"/p.S1/M1", "/p%2ES1/M1", "/p.S%31/M1", "/p.S2/a%2Fb", "/p.S2%2FM", "/q.T/", "//M", "/p.S1", "/p.S1/M%20x?q=1", "/p.S1%20x/M", "/p.S1/%zz", "/nobody.S/M"}
+	xNames   = []string{"/p.S1/M1", "p.S2/M", "/p%2ES1/M", "/q.T/a/b", "/nobody.S/M", "bad"}
+)
+
+var genStats = map[string]int{}
+
+func (Area) Extra() map[string]any {
+	out := map[string]any{}
+	for k, v := range genStats {
+		out[k] = v
+	}
+	return map[string]any{"generator": out}
+}
+
+// claimMutate: descriptions that only list services (what a reflection resolver with OnlyServices delivers);
+// successive descriptions of a target keep, add, drop and re-order claims, often overlapping with the other targets'.
+func claimMutate(r *rand.Rand, name string, prev *c06.DescSpec, others []*c06.DescSpec) *c06.DescSpec {
+	return claimMutateWith(svcPool)(r, name, prev, others)
+}
+
+func claimMutateWith(svcPool []string) func(r *rand.Rand, name string, prev *c06.DescSpec, others []*c06.DescSpec) *c06.DescSpec {
+	return func(r *rand.Rand, name string, prev *c06.DescSpec, others []*c06.DescSpec) *c06.DescSpec {
+		return claimMut(r, svcPool, name, prev, others)
+	}
+}
+
+func claimMut(r *rand.Rand, svcPool []string, name string, prev *c06.DescSpec, others []*c06.DescSpec) *c06.DescSpec {
+	d := &c06.DescSpec{Name: name}
+	if prev != nil && r.Intn(5) != 0 {
+		for _, s := range prev.Services {
+			if r.Intn(4) != 0 { // keep
+				d.Services = append(d.Services, c06.ServiceSpec{Name: s.Name})
+			} else {
+				genStats["claim:drop"]++
+			}
+		}
+	}
+	for i, n := 0, r.Intn(3); i < n; i++ {
+		s := common.Pick(r, svcPool)
+		if len(others) > 0 && r.Intn(3) == 0 {
+			if o := common.Pick(r, others); o != nil && len(o.Services) > 0 {
+				s = o.Services[r.Intn(len(o.Services))].Name // claim what somebody else lists
+				genStats["claim:overlap"]++
+			}
+		}
+		d.Services = append(d.Services, c06.ServiceSpec{Name: s})
+		genStats["claim:add"]++
+	}
+	if len(d.Services) > 1 && r.Intn(4) == 0 {
+		r.Shuffle(len(d.Services), func(i, j int) { d.Services[i], d.Services[j] = d.Services[j], d.Services[i] })
+	}
+	return d
+}
+
+func (Area) Gen(r *rand.Rand, tier string, emit func(string)) {
+	parse := func(s string) { emit("parse " + common.HexS(s)) }
+	// exhaustive: every string of length ≤ 5 (quick) / ≤ 7 (thorough) over {/ . a % 2 F}
+	ex := []byte("/.a%2F")
+	maxLen := 5
+	if tier == "thorough" {
+		maxLen = 7
+	}
+	var rec func(prefix []byte)
+	rec = func(prefix []byte) {
+		parse(string(prefix))
+		if len(prefix) == maxLen {
+			return
+		}
+		for _, c := range ex {
+			rec(append(append([]byte{}, prefix...), c))
+		}
+	}
+	rec(nil)
+	n := 5000
+	if tier == "thorough" {
+		n = 200000
+	}
+	for i := 0; i < n; i++ {
+		switch r.Intn(4) {
+		case 0: // well-formed-ish
+			s := common.Pick(r, []string{"", "/", "//"}) + common.Pick(r, svcPool) + common.Pick(r, []string{"/", "", "//", "/M/"}) + string(common.RandBytes(r, r.Intn(6), []byte("Mab/.%")))
+			parse(s)
+		case 1:
+			parse(string(common.RandBytes(r, r.Intn(12), []byte("/.ab%2F_ "))))
+		default:
+			parse(string(common.RandBytes(r, r.Intn(10), nil)))
+		}
+	}
+
+	g := func() []*string {
+		var gs []*string
+		for i := range gNames {
+			gs = append(gs, &gNames[i])
+		}
+		return append(gs, nil)
+	}()
+	base := &c06.Line{Pool: targets, G: g, H: hTargets, W: wTargets, X: xNames}
+
+	// exhaustive short claim histories: two targets, one contested service and one private each
+	mk := func(name string, svcs ...string) *c06.DescSpec {
+		d := &c06.DescSpec{Name: name}
+		for _, s := range svcs {
+			d.Services = append(d.Services, c06.ServiceSpec{Name: s})
+		}
+		return d
+	}
+	alpha := []c06.Op{{Kind: 'w', Name: "a"}, {Kind: 'w', Name: "b"}, {Kind: 'c', Name: "a"}, {Kind: 'c', Name: "b"},
+		{Kind: 'u', Name: "a", Desc: mk("a", "p.S1", "p.S2")}, {Kind: 'u', Name: "a", Desc: mk("a", "p.S2")},
+		{Kind: 'u', Name: "b", Desc: mk("b", "q.T", "p.S1")}, {Kind: 'u', Name: "b", Desc: mk("b")}}
+	maxH := 4
+	if tier == "thorough" {
+		maxH = 5
+	}
+	small := &c06.Line{Pool: targets, G: g[:4], H: hTargets[:3], W: wTargets[:2], X: xNames[:2]}
+	var rech func(prefix []c06.Op)
+	rech = func(prefix []c06.Op) {
+		if len(prefix) > 0 {
+			l := *small
+			l.Ops = prefix
+			emit(l.String())
+		}
+		if len(prefix) == maxH {
+			return
+		}
+		for _, o := range alpha {
+			rech(append(append([]c06.Op{}, prefix...), o))
+		}
+	}
+	rech(nil)
+
+	nh, maxOps := 250, 12
+	if tier == "thorough" {
+		nh, maxOps = 5000, 30
+	}
+	for i := 0; i < nh; i++ {
+		l := *base
+		if r.Intn(8) == 0 {
+			l.Pool = targets[:2] // "c" has no pooled connection: Unavailable
+		}
+		if i%2 == 1 { // churn: two targets, two services, frequent close / re-watch
+			l.Ops = c06.GenHistory(r, 2+r.Intn(maxOps-1), true, claimMutateWith(svcPool[:2]))
+		} else {
+			l.Ops = c06.GenHistory(r, 2+r.Intn(maxOps-1), false, claimMutate)
+		}
+		emit(l.String())
+	}
+}
